@@ -13,11 +13,36 @@
 (***************************************************************************)
 EXTENDS Machine
 
+\* Store changes are compared per segment: between two visible events (output, prompt, device call,
+\* halt) only the net change of the store is observable, not the order of the assignments.  A run of
+\* "set" events becomes one "set" event whose third component maps cell <<name, subscripts>> to
+\* <<value, kind of the statement that stored it>>.
+Canon(obs) ==
+  FoldLeft(LAMBDA acc, o :
+     IF o[1] # "set" THEN Append(acc, o)
+     ELSE LET cell == <<o[2], o[3]>>
+              \* value of a loop variable after exit: BASIC09 uncertain (DESIGN 4.1)
+              v == <<IF o[5] = "NEXT-exit" THEN Sym ELSE o[4][1], o[5]>> IN
+          IF acc # <<>> /\ acc[Len(acc)][1] = "set"
+          THEN [acc EXCEPT ![Len(acc)] = <<"set", "", Put(@[3], cell, v), <<>>, o[5]>>]
+          ELSE Append(acc, <<"set", "", (cell :> v), <<>>, o[5]>>), <<>>, obs)
+SetsAgree(f, g) == DOMAIN f = DOMAIN g /\ \A c \in DOMAIN f : VAgree(f[c][1], g[c][1])
 ObAgree(a, b) ==
-  /\ a[1] = b[1] /\ a[2] = b[2] /\ a[3] = b[3]
-  /\ Len(a[4]) = Len(b[4])
-  /\ \/ b[5] = "NEXT-exit"        \* value of a loop variable after exit: BASIC09 uncertain (DESIGN 4.1)
-     \/ \A k \in 1..Len(a[4]) : VAgree(a[4][k], b[4][k])
+  /\ a[1] = b[1]
+  /\ IF a[1] = "set" THEN SetsAgree(a[3], b[3])
+     ELSE /\ a[2] = b[2] /\ a[3] = b[3] /\ Len(a[4]) = Len(b[4])
+          /\ \A k \in 1..Len(a[4]) : VAgree(a[4][k], b[4][k])
+\* the first cell on which two store-change events differ, as a key fragment
+SetsDiff(f, g) ==
+  LET onlyS == DOMAIN f \ DOMAIN g
+      onlyT == DOMAIN g \ DOMAIN f
+      both == { c \in DOMAIN f \cap DOMAIN g : ~VAgree(f[c][1], g[c][1]) } IN
+  IF both # {} THEN LET c == CHOOSE x \in both : TRUE IN
+       [key |-> "src=" \o f[c][2] \o ":tgt=" \o g[c][2] \o ":value(" \o f[c][1][1] \o "/" \o g[c][1][1] \o ")", name |-> c[1], ssk |-> f[c][2]]
+  ELSE IF onlyS # {} THEN LET c == CHOOSE x \in onlyS : TRUE IN
+       [key |-> "src=" \o f[c][2] \o ":store-missing-in-target", name |-> c[1], ssk |-> f[c][2]]
+  ELSE LET c == CHOOSE x \in onlyT : TRUE IN
+       [key |-> "tgt=" \o g[c][2] \o ":store-only-in-target", name |-> c[1], ssk |-> g[c][2]]
 CallAgree(a, b) == a[1] = b[1] /\ Len(a[2]) = Len(b[2]) /\ \A k \in 1..Len(a[2]) : VAgree(a[2][k], b[2][k])
 FirstDiff(xs, ys, Agree(_, _)) ==
   LET n == Min2(Len(xs), Len(ys))
@@ -53,15 +78,21 @@ JudgeRun(ps, cs, inp, dev) ==
       bp == ps.bp
       sd == Run(dp, "decb", St0(inp, dev), cs.fuel)
       sb == Run(bp, "b09", Load(bp.code, St0(inp, dev)), 4 * cs.fuel + 200)
-      k == FirstDiff(sd.obs, sb.obs, ObAgree)
+      sobs == Canon(sd.obs)
+      tobs == Canon(sb.obs)
+      k == FirstDiff(sobs, tobs, ObAgree)
       kc == FirstDiff(sd.calls, sb.calls, CallAgree)
       shapes == SrcShapes(dp.code) IN
   IF sd.status = "run" THEN V(TRUE, "unjudged", "src-fuel", "")
   ELSE IF sd.status = "error" THEN V(TRUE, "unjudged", "src-error", sd.why)
   ELSE IF sd.status = "unjudged" THEN V(TRUE, "unjudged", "src-" \o sd.why, "")
-  ELSE IF k # 0 THEN
-       LET a == sd.obs[k]  b == sb.obs[k] IN
-       IF sb.status = "unjudged" /\ k = Len(sb.obs) THEN V(TRUE, "unjudged", "tgt-" \o sb.why, "")
+  \* a difference in the target's last, unfinished segment is the consequence of its abnormal stop: report the stop
+  ELSE IF k # 0 /\ ~(k = Len(tobs) /\ sb.status \in {"error", "undef", "run"} /\ tobs[k][1] = "set") THEN
+       LET a == sobs[k]  b == tobs[k] IN
+       IF sb.status = "unjudged" /\ k = Len(tobs) THEN V(TRUE, "unjudged", "tgt-" \o sb.why, "")
+       ELSE IF sb.status = "undef" /\ k = Len(tobs) /\ ~cs.init /\ sb.rdundef \notin TmpNames THEN V(TRUE, "unjudged", "tgt-reads-unassigned-without-init", sb.rdundef)
+       ELSE IF a[1] = "set" /\ b[1] = "set" THEN
+            LET d == SetsDiff(a[3], b[3]) IN VS(FALSE, "obs", "obs:set/set:" \o d.key, "event " \o ToString(k) \o " name " \o d.name, d.ssk)
        ELSE IF a[1] = "dev" /\ b[1] = "dev" /\ a[2] = b[2] THEN
             (IF a[3] # b[3] THEN V(FALSE, "arity", "arity:" \o b[2] \o ":passed=" \o ToString(b[3][1]) \o ":declared=" \o ToString(a[3][1]), "")
              ELSE V(FALSE, "operand", "operand:" \o b[2] \o ":" \o DevDiffName(a, b), "src=" \o a[5]))
@@ -70,7 +101,7 @@ JudgeRun(ps, cs, inp, dev) ==
               "event " \o ToString(k) \o " name " \o a[2] \o "/" \o b[2], a[5])
   ELSE IF sb.status = "unjudged" THEN V(TRUE, "unjudged", "tgt-" \o sb.why, "")
   ELSE IF sb.status = "undef" THEN
-       LET at == bp.code[sb.pc].op \o (IF bp.code[sb.pc].op = "JF" THEN "-" \o bp.code[sb.pc].sk ELSE "") IN
+       LET at == bp.code[sb.epc].op \o (IF bp.code[sb.epc].op = "JF" THEN "-" \o bp.code[sb.epc].sk ELSE "") IN
        IF sb.rdundef \in TmpNames THEN
             V(FALSE, "temp-defined", "temp-defined:read-of-unassigned-temporary:at=" \o at \o
                      (IF \E q \in 1..Len(dp.code) : dp.code[q].op = "JF" /\ dp.code[q].sk \in {"IF-ELSE", "IF-ELSEIF-ELSE", "IF-ELSEIF-noELSE"}
@@ -78,15 +109,16 @@ JudgeRun(ps, cs, inp, dev) ==
        ELSE IF cs.init THEN V(FALSE, "initial", "initial:read-of-unassigned-variable:at=" \o at, sb.rdundef \o " shapes" \o shapes)
        ELSE V(TRUE, "unjudged", "tgt-reads-unassigned-without-init", sb.rdundef)
   ELSE IF sb.status = "error" THEN
-       V(FALSE, "target-error", "target-error:" \o sb.why \o ":at=" \o bp.code[sb.pc].op \o
-                         (IF bp.code[sb.pc].op = "JF" THEN "-" \o bp.code[sb.pc].sk \o ":src-has=" \o shapes ELSE ""), "after " \o ToString(Len(sb.obs)) \o " events; shapes" \o shapes)
+       V(FALSE, "target-error", "target-error:" \o sb.why \o ":at=" \o bp.code[sb.epc].op \o
+                         (IF bp.code[sb.epc].op = "JF" THEN "-" \o bp.code[sb.epc].sk \o ":src-has=" \o shapes
+                          ELSE IF bp.code[sb.epc].op = "RUN" THEN "-" \o bp.code[sb.epc].x ELSE ""), "after " \o ToString(Len(tobs)) \o " events; shapes" \o shapes)
   ELSE IF sb.status = "run" THEN
        V(FALSE, "halt", "halt:target-spins-in=" \o SpinWhere(bp.code[sb.pc]) \o
                         (IF SpinWhere(bp.code[sb.pc]) = "LOOP-block" /\ \E q \in 1..Len(dp.code) : dp.code[q].op = "JF" /\ dp.code[q].sk = "IF-ELSEIF-noELSE"
                          THEN ":src=IF-ELSEIF-without-ELSE" ELSE ""), "shapes" \o shapes)
-  ELSE IF Len(sd.obs) # Len(sb.obs) THEN
-       V(FALSE, "obs", "obs:" \o (IF Len(sd.obs) > Len(sb.obs) THEN "missing:" \o sd.obs[Len(sb.obs) + 1][1] \o ":src=" \o sd.obs[Len(sb.obs) + 1][5]
-                                  ELSE "extra:" \o sb.obs[Len(sd.obs) + 1][1]), "")
+  ELSE IF Len(sobs) # Len(tobs) THEN
+       V(FALSE, "obs", "obs:" \o (IF Len(sobs) > Len(tobs) THEN "missing:" \o sobs[Len(tobs) + 1][1] \o ":src=" \o sobs[Len(tobs) + 1][5]
+                                  ELSE "extra:" \o tobs[Len(sobs) + 1][1]), "")
   ELSE IF kc # 0 THEN V(FALSE, "call-seq", "call-seq:want=" \o sd.calls[kc][1] \o ":got=" \o sb.calls[kc][1], "call " \o ToString(kc))
   ELSE IF Len(sd.calls) # Len(sb.calls) THEN
        VS(FALSE, "call-seq", "call-seq:" \o (IF Len(sd.calls) > Len(sb.calls) THEN "lost:" \o sd.calls[Len(sb.calls) + 1][1]
@@ -103,9 +135,19 @@ HasConv(tr) == CASE tr[1] = "call" -> tr[2] \in Convertible \/ \E k \in 1..Len(t
 ConvInReadInputSubscript(code) ==
   \E q \in 1..Len(code) : code[q].op \in {"READ", "INPUT"} /\
      \E k \in 1..Len(code[q].a) : code[q].a[k][1] = "idx" /\ \E j \in 1..Len(code[q].a[k][3]) : HasConv(code[q].a[k][3][j])
+\* is the tree a string-valued expression?
+StrFuns == {"LEFT$", "RIGHT$", "MID$", "CHR$", "STR$", "HEX$", "STRING$", "INKEY$"}
+RECURSIVE IsStrTree(_)
+IsStrTree(tr) == CASE tr[1] = "str" -> TRUE [] tr[1] = "var" -> tr[3] = "$" [] tr[1] = "idx" -> tr[4] = "$"
+                   [] tr[1] = "call" -> tr[2] \in StrFuns [] tr[1] = "par" -> IsStrTree(tr[2])
+                   [] tr[1] = "bin" -> tr[2] = "+" /\ IsStrTree(tr[3]) [] OTHER -> FALSE
+HPrintNumeric(code) == \E q \in 1..Len(code) : code[q].op = "DEV" /\ code[q].x = "HPRINT" /\ Len(code[q].a) = 3 /\ ~IsStrTree(code[q].a[3])
 LineHas(toks, words) == \E k \in 1..Len(toks) : toks[k].k = "id" /\ toks[k].v \in words
 Situate(cs, ps, vd) ==
-  IF vd.ok \/ ~ConvInReadInputSubscript(ps.dp.code) THEN vd
+  IF vd.ok THEN vd
+  ELSE IF HPrintNumeric(ps.dp.code) /\ vd.key \in {"target-error:type:assignment:at=RUN-ECB_STR", "operand:ECB_HPRINT:TXT"}
+       THEN [vd EXCEPT !.key = @ \o ":src=HPRINT-of-a-number"]
+  ELSE IF ~ConvInReadInputSubscript(ps.dp.code) THEN vd
   ELSE IF \/ (vd.clause = "parses" /\ ps.tln >= 1 /\ ps.tln <= Len(cs.out) /\ LineHas(cs.out[ps.tln], {"READ", "INPUT"}))
           \/ (vd.clause = "call-seq" /\ vd.ssk = "lost")
           \/ (vd.clause = "obs" /\ vd.ssk \in {"READ", "INPUT"})
